@@ -79,6 +79,13 @@ def handleMarkPlan (st : St) (op : String) (j : Json) : Option (D (St × Json)) 
     | "clear_incompatible" =>
       return (st, ePSt 0 (ps.clearIncompatible S (← nat (← field j "pos")) (← nat (← field j "type"))))
     | k => throw s!"bad planNodeOp kind {k}"
+  | "retypedChildren" => some do
+    -- the specification side of `clear_incompatible` (PM/KeptChildren.lean): the children the node
+    -- is left with, adjacent text of equal marks joined as `Fragment.from_array` does
+    let S ← getSchema st j
+    let n ← node (← field j "node")
+    let ty ← nat (← field j "type")
+    return (st, ok (Json.arr ((fromArray (retypedChildren S ty n.kids)).map eNode).toArray))
   | "planAddMark" => some do
     let S ← getSchema st j
     let d ← node (← field j "doc")
